@@ -224,10 +224,10 @@ func genOptions(r *rand.Rand) *refsem.Options {
 
 var c01Zoo = univ.Zoo()
 
-var c01MatrixLits = []string{"abc", "5", "1.5", "true", "", "x", "7", "99999999999999999999", "1e999", "0x5", "05", "-5", "261", "^a", "(", "a", "l", "1e2", "100", "5.0"}
+var c01MatrixLits = []string{"abc", "5", "1.5", "true", "", "x", "-9223372036854775808", "18446744073709551615", "-0", "0", "5e-324", "9223372036854775807", "Inf", "+Inf", "-inf", "1.7976931348623157e308", "7", "99999999999999999999", "1e999", "0x5", "05", "-5", "261", "^a", "(", "a", "l", "1e2", "100", "5.0"}
 
 // c01Matrix: one zoo entry x 3 holders (and selector spellings) x 8
-// operators x 20 literal classes x a sub-path into the value - enumerated
+// operators x 30 literal classes x a sub-path into the value - enumerated
 // completely on every run.
 func c01Matrix(c *mon.Ctx, idx int) {
 	z := c01Zoo[idx]
@@ -247,6 +247,9 @@ func c01Matrix(c *mon.Ctx, idx int) {
 	for _, h := range holders {
 		for _, base := range h.sel {
 			for si, sub := range subs {
+				if si > 0 && h.name != "map" && h.name != "ptr-struct" {
+					continue // sub-paths only under two of the holders
+				}
 				sel := base.Clone()
 				sel.Parts = append(sel.Parts, sub...)
 				sel.Spell = nil
@@ -259,7 +262,7 @@ func c01Matrix(c *mon.Ctx, idx int) {
 						lits = lits[:1]
 					}
 					if si > 0 {
-						lits = lits[:6] // sub-paths: fewer literal classes
+						lits = lits[:8] // sub-paths: fewer literal classes
 					}
 					for _, l := range lits {
 						m := &xgen.Match{Sel: sel, Op: op}
@@ -368,7 +371,7 @@ func c01Required(tier string) []string {
 func init() {
 	mon.Register(&mon.Prop{
 		ID: "C01", Level: "exploration",
-		Rule: "(a) deterministic matrix, enumerated completely on every run: a zoo of ~95 value shapes (14 scalar kinds, named types, json.Number incl. hostile ones, nil, pointer levels, typed / named / interface slices and arrays with nil and odd elements, string / named-string / int / bool / float / interface keyed maps, structs, chan/func/complex) x 4 holders and selector spellings x 14 sub-paths x 8 operators x 20 literal classes (matching, ill-typed, out-of-range, base-prefixed, wrap-around) + 6 quantifier forms; (b) a seeded logical JSON-like document (boundary scalars, nested objects/lists, odd keys) is materialised in 5 Go representations (all-interface{}, json.Number, typed containers+tagged structs incl. hidden/unexported fields, typed+pointers, per-node mix); 3 datum-directed expressions per case (depth<=4, quantifier nesting<=3, every operator, binding mode, selector spelling, literal style; 25% deliberately broken paths; literals equal / different / ill-typed) are rendered, passed through the real parser and Evaluate, and compared with the set of outcomes an independent interpreter of the documented semantics allows (options: tag name, unknown value). non-trivial = the reference determines the outcome (not on the explicit unspecified list); distinct by (canonical expression, datum representation shape, options)",
+		Rule: "(a) deterministic matrix, enumerated completely on every run: a zoo of ~95 value shapes (14 scalar kinds, named types, json.Number incl. hostile ones, nil, pointer levels, typed / named / interface slices and arrays with nil and odd elements, string / named-string / int / bool / float / interface keyed maps, structs, chan/func/complex) x 4 holders and selector spellings x 14 sub-paths x 8 operators x 30 literal classes (matching, ill-typed, out-of-range, base-prefixed, wrap-around) + 6 quantifier forms; (b) a seeded logical JSON-like document (boundary scalars, nested objects/lists, odd keys) is materialised in 5 Go representations (all-interface{}, json.Number, typed containers+tagged structs incl. hidden/unexported fields, typed+pointers, per-node mix); 3 datum-directed expressions per case (depth<=4, quantifier nesting<=3, every operator, binding mode, selector spelling, literal style; 25% deliberately broken paths; literals equal / different / ill-typed) are rendered, passed through the real parser and Evaluate, and compared with the set of outcomes an independent interpreter of the documented semantics allows (options: tag name, unknown value). non-trivial = the reference determines the outcome (not on the explicit unspecified list); distinct by (canonical expression, datum representation shape, options)",
 		Assumptions: []string{
 			"reference semantics = internal/refsem, written from README/doc comments/property statements; cases on its explicit unspecified list (counted as unspecified_skipped with the reason) are not compared",
 			"literal spellings are those of strconv (ParseBool, base-0 ParseInt/ParseUint, ParseFloat), which is the documented meaning",
